@@ -178,11 +178,16 @@ class StateMachineMetaclass(type):
                 cls.add_event(event=Event(id=event.id, name=event.name))
 
     def add_from_attributes(cls, attrs):  # noqa: C901
+        # states first: an event declared with ``from_.any()`` is expanded onto every state of the
+        # class, also onto the ones declared further down in the class body
         for key, value in attrs.items():
             if isinstance(value, States):
                 cls._add_states_from_dict(value)
             if isinstance(value, State):
                 cls.add_state(key, value)
+        for key, value in attrs.items():
+            if isinstance(value, (State, States)):
+                continue
             elif isinstance(value, (Transition, TransitionList)):
                 cls.add_event(event=Event(transitions=value, id=key, name=key))
             elif isinstance(value, (Event,)):
